@@ -25,6 +25,11 @@ let p32 = z_of_dec "4294967296"
 let small s = let v = z s in zlt (xb_zopp p61) v && zlt v p61
 let below s p = let v = z s in not (zlt v Z0) && zlt v p
 
+let hexz h = if h = "-" then [] else List.map xb_z_of_n (bytes_of_hex h)
+let zhex l = hex_of_bytes (List.map xb_n_of_z l)
+let p8 = z_of_dec "256"
+let p16 = z_of_dec "65536"
+
 let xl (f : string) (a : string list) : string =
   match f, a with
   | "Min_int", [x; y] -> zs (xl_mathext_Min_int (z x) (z y))
@@ -50,6 +55,18 @@ let xl (f : string) (a : string list) : string =
   | "isValidLowEntropyRotation", [r] -> bool_s (xl_protocol_isValidLowEntropyRotation (z r))
   | "lowBits", [n] -> optp (xl_protocol_lowBits (z n))
   | "rotateLowEntropyMask", [m; r; i] -> zs (xl_protocol_rotateLowEntropyMask (z m) (z r) (z i))
+  | "Mid_uint32", [a; b; c] -> zs (xl_mathext_Mid_uint32 (z a) (z b) (z c))
+  | "WithinRange_uint32", [v; t; m] -> bool_s (xl_mathext_WithinRange_uint32 (z v) (z t) (z m))
+  | "sessionMarshal", [p; sid; seq; st; pl; sl; now] ->
+    let (b, _) = xl_protocol_sessionStruct_Marshal (z p) Z0 (z sid) (z seq) (z st) (z pl) (z sl) (z now) in zhex b
+  | "sessionUnmarshal", [h; now] ->
+    (match xl_protocol_sessionStruct_Unmarshal (hexz h) Z0 Z0 Z0 Z0 Z0 Z0 Z0 (z now) with
+     | None -> "PANIC"
+     | Some (((((((err, p), ts), sid), seq), st), pl), sl) ->
+       if err then "ERR" else String.concat " " (List.map zs [p; ts; sid; seq; st; pl; sl]))
+  | "dataAckMarshal", [p; mo; sid; seq; un; win; fr; pre; pl; sl; ma; el; ro; now] ->
+    let (b, _) = xl_protocol_dataAckStruct_Marshal (z p) Z0 (z mo) (z sid) (z seq) (z un) (z win) (z fr) (z pre) (z pl) (z sl)
+                   (z ma) (z el) (z ro) (z now) in zhex b
   | _ -> "?"
 
 let zmin a b = if zlt b a then b else a
@@ -89,6 +106,18 @@ let model (f : string) (a : string list) : string =
   | "rotateLowEntropyMask", [m; r; i] ->
     if below m p64 && below i p63 && zlt (xb_zopp (xb_zadd p32 (z "1"))) (xb_zadd (z r) (z r)) && zlt (xb_zadd (z r) (z r)) p32
     then ns (m_rotate_mask (nz m) (z r) (nz i)) else "-"
+  | "Mid_uint32", [a; b; c] -> zs (m_mid3 (z a) (z b) (z c))
+  | "WithinRange_uint32", [v; t; m] -> bool_s (m_within_range32 (z v) (z t) (z m))
+  | "sessionMarshal", [p; sid; seq; st; pl; sl; now] ->
+    hex_of_bytes (m_marshal_session (nz p) (xb_n_of_z (m_stamp (z now))) (nz sid) (nz seq) (nz st) (nz pl) (nz sl))
+  | "sessionUnmarshal", [h; now] ->
+    (match m_unmarshal_session (if h = "-" then [] else bytes_of_hex h) with
+     | Some (p :: ts :: rest) when m_within_range32 (m_stamp (z now)) (xb_z_of_n ts) (z "1") ->
+       String.concat " " (List.map ns (p :: ts :: rest))
+     | _ -> "ERR")
+  | "dataAckMarshal", [p; mo; sid; seq; un; win; fr; pre; pl; sl; ma; el; ro; now] ->
+    hex_of_bytes (m_marshal_data (nz p) (nz mo) (xb_n_of_z (m_stamp (z now))) (nz sid) (nz seq) (nz un) (nz win) (nz fr) (nz pre)
+                    (nz pl) (nz sl) (nz ma) (nz el) (nz ro))
   | _ -> "?"
 
 let () =
